@@ -116,6 +116,8 @@ def _post_cancel(cls_name):
             cl.append(("a False from the underlying future's cancel() vetoes the cancellation (unless the future got cancelled meanwhile "
                        "by a re-entrant cancel: then the truthful answer is True)", "PC",
                        z3.Implies(z3.Not(dcalls[0].ret), z3.Or(z3.Not(rb), car2 if car2 is not None else z3.BoolVal(False))) if dcalls[0].ret is not None else True, ["C06"]))
+            cl.append(("... in particular this call itself never cancels the future after the underlying future has refused", "PC",
+                       z3.Implies(z3.Not(dcalls[0].ret), z3.BoolVal(len(mine) == 0)) if dcalls[0].ret is not None else True, ["C06", "C02"]))
         seen_cancelled = any(a == "self.cancelled()" and b for a, b in st.decisions)
         if cls_name in ("MapFuture", "FlatMapFuture", "ProxyFuture") and not dcalls and not seen_cancelled:
             cl.append(("with no pending delegate to ask, a pending future cannot be cancelled (the work is already being delivered)", "PC",
